@@ -31,7 +31,18 @@ MANIFEST = {
             "(Spec/PatternRules.v: crule/orule; recognises_rules_full), the other listed rewrites by the responsible pass, "
             "and by the whole pipeline for one-comparison patterns.  The model is tied to /repo on "
             "every run by a correspondence run on generated patterns (normal forms, equivalent_patterns, "
-            "find_equivalent_patterns), with the defect variant of the special-value pass selected by running witnesses.",
+            "find_equivalent_patterns), with the defect variant of the special-value pass selected by running witnesses.  "
+            "SCOPE OF TOTALITY: equiv_never_raises is about parsed patterns (ASTs) satisfying valid_o -- every comparison-level "
+            "AND has a common object type, as the object model's constructors demand -- not about every text the grammar "
+            "accepts: the grammar-valid `[a:x = 1 AND b:y = 2]` is outside valid_o (there the library raises: known finding "
+            "C09-and-disjoint-root-types), and no theorem shows that the output of the visitor (property C10), mapped to the "
+            "model's AST, satisfies valid_o; that bridge is covered only by the per-run oracle `never raises on "
+            "validator-accepted patterns`.  SHARED TRUSTED BASE: the specification Spec/PatternSemantics.v builds the "
+            "denotation of constants from helpers defined in the model file and used by the model too (hex_decode, "
+            "b64_decode, inet_aton, py_int, find_cp, the IPv4 masking, special_kind, is_matches; ip_canon true inside the "
+            "hypothesis respects_cidr6), so the soundness theorems cannot see an error in them; they are anchored on known "
+            "vectors (Props/C09.v anchor_*: RFC 4648, glibc inet_aton forms, CIDR masking) and exercised by the "
+            "correspondence run.",
     "design_ref": "DESIGN.md 6/C09, Appendix A.5",
     "note": "Source-text tie: translators/tr_patterneq.py reads, on every run, from the ast of stix2/equivalence/pattern the "
             "type-order tables, the numeric cases of constant_cmp, the fields simple_comparison_expression_cmp compares and "
@@ -49,7 +60,8 @@ MANIFEST = {
             "beyond their guards (correspondence run only).  "
             "Trusted: Coq kernel + vm_compute, the hand-written model (checked against the implementation on every run), "
             "the restated platform functions inet_aton/inet_pton/inet_ntoa/inet_ntop/int()/str.lower() (below U+0100), the "
-            "binding semantics of Spec/PatternSemantics.v.  Totality is proved (equiv_never_raises: on constructor-valid "
+            "binding semantics of Spec/PatternSemantics.v, and the helper functions shared by specification and model (see text).  "
+            "Totality is proved (equiv_never_raises: on constructor-valid "
             "patterns some fuel suffices and the answer does not depend on it; settle loops and both DNF recursions "
             "terminate).  Partial: IPv6 canonicalisation is a hypothesis on the interpretation "
             "(respects_cidr6); recognition of absorption/distribution for arbitrary sub-expressions through "
